@@ -11,6 +11,7 @@ CONSTANTS
   AppendOnly = FALSE
   Persist = FALSE
   EmitDepth = 0
+  FanFrom = 0
 VIEW View
 INVARIANTS WellFormed Refines ReadsAgree Routing
 CHECK_DEADLOCK FALSE
